@@ -176,6 +176,25 @@ def _summary(fn):
     return out, consts
 
 
+TSOFT = [('spatialmath/base/transforms3d.py', 'tr2rpy'), ('spatialmath/base/transforms3d.py', 'tr2eul'), ('spatialmath/base/transforms2d.py', 'tr2xyt')]
+_TSOFT_STOP = {'tr2rpy', 'tr2eul', 'tr2xyt'}
+
+
+def _tsoft_consts(fname, rel):
+    """None unless the threshold multiset of fname + helper closure is the recorded one AND all its k*_eps thresholds share one integer factor
+    (then that factor; 0 when the function has no threshold)"""
+    import re
+    from lib import tsoft
+    ok, found, base = tsoft.same_thresholds(REPO, 'C05', rel, fname, _TSOFT_STOP - {fname})
+    if not ok:
+        return None
+    ks = {int(m.group(1)) for m in (re.fullmatch(r'cmp Lt (\d+)\*eps', t) for t in found) if m}
+    n = sum(1 for t in found if t.startswith('cmp '))
+    if n != len(CONST_NAMES[fname]) or len(ks) > 1 or (n and not ks):
+        return None
+    return ks.pop() if ks else 0
+
+
 def tconst(ctx):
     """returns ({constant name: k}, {function: True if its normalised AST differs from the recorded one})"""
     vals, changed = {}, {}
@@ -188,8 +207,23 @@ def tconst(ctx):
         if rel.endswith('transforms3d.py'):
             if not any(isinstance(n, ast.Assign) and ast.unparse(n) == '_eps = np.finfo(np.float64).eps' for n in tree.body):
                 raise TConstError("transforms3d._eps is no longer np.finfo(np.float64).eps")
-        sm, consts = _summary(fns[0])
+        try:
+            sm, consts = _summary(fns[0])
+        except TConstError:
+            if _tsoft_consts(fname, rel) is None:
+                raise
+            sm, consts = None, None
         if sm != EXPECTED_SUMMARY[fname]:
+            soft = _tsoft_consts(fname, rel)
+            if soft is not None:
+                # restructured (helpers extracted, elements bound to locals, ...): every numeric threshold of the function and of the same-module
+                # helpers it calls is the recorded one, and they all share one value, so each named constant has that value; not a broken tie by
+                # itself -- the float correspondence of the model instances of this function is escalated (see run())
+                for nm in CONST_NAMES[fname]:
+                    vals[nm] = soft
+                changed[fname] = True
+                ctx.stats[f'ast_hash:{fname}'] = 'restructured; thresholds unchanged (lib/tsoft.py)'
+                continue
             diff = [(i, a, b) for i, (a, b) in enumerate(zip(sm + ['<end>'] * 40, EXPECTED_SUMMARY[fname] + ['<end>'] * 40)) if a != b][:3]
             raise TConstError(f"{fname}: the ordering comparisons differ from the ones the model mirrors (index, source, model): {diff}")
         if len(consts) != len(CONST_NAMES[fname]):
